@@ -29,12 +29,28 @@ def dyn(rnd, n=None):
                 g=np.array([rnd.uniform(-10, 10) for _ in range(3)]), F=np.array([rnd.uniform(-20, 20) for _ in range(6)]))
 
 
+EXACT_HALFTURNS = [
+    [[1, 0, 0], [0, -1, 0], [0, 0, -1]], [[-1, 0, 0], [0, 1, 0], [0, 0, -1]], [[-1, 0, 0], [0, -1, 0], [0, 0, 1]],          # about x, y, z
+    [[0, 1, 0], [1, 0, 0], [0, 0, -1]], [[0, -1, 0], [-1, 0, 0], [0, 0, -1]],                                               # about (1, +-1, 0)
+    [[0, 0, 1], [0, -1, 0], [1, 0, 0]], [[0, 0, -1], [0, -1, 0], [-1, 0, 0]],                                               # about (1, 0, +-1)
+    [[-1, 0, 0], [0, 0, 1], [0, 1, 0]], [[-1, 0, 0], [0, 0, -1], [0, -1, 0]],                                               # about (0, 1, +-1)
+    [[-0.28, 0.96, 0], [0.96, 0.28, 0], [0, 0, -1]], [[-0.28, -0.96, 0], [-0.96, 0.28, 0], [0, 0, -1]],                      # about (3, +-4, 0)/5
+    [[0.28, 0, 0.96], [0, -1, 0], [0.96, 0, -0.28]], [[-1, 0, 0], [0, -0.28, 0.96], [0, 0.96, 0.28]],                        # about (4, 0, 3)/5, (0, 3, 4)/5
+]
+
+
 def cases(rnd):
     """list of (function name, args tuple, kind) — kind in {'val', 'ik', 'traj'}"""
     out = []
     w, _ = G.rotvec(rnd, maxangle=math.pi - 1e-2)
     R, _ = G.rotation(rnd, rnd.choice(['zero', 'small', 'one', 'half_pi', 'generic', 'near_pi']))
     T, _ = G.pose(rnd, rnd.choice(['zero', 'small', 'one', 'half_pi', 'generic', 'near_pi']), None, math.pi - 1e-2)
+    # exact half turns (trace exactly -1): each of the three sub-branches of the logarithm's angle-pi case, signs and axis planes
+    k_ = rnd.random()
+    if k_ < 0.25:
+        R = np.array(rnd.choice(EXACT_HALFTURNS), dtype=float)
+    if 0.15 < k_ < 0.4:
+        T = T.copy(); T[:3, :3] = np.array(rnd.choice(EXACT_HALFTURNS), dtype=float)
     V, _ = G.twist(rnd, rnd.choice(['zero', 'small', 'one', 'generic']), None, math.pi - 1e-2)
     se3 = np.zeros((4, 4)); se3[:3, :3] = G.hat(V[:3]); se3[:3, 3] = V[3:]
     p = G.translation(rnd, 1.0)
